@@ -362,6 +362,9 @@ func (f *frame) frameObligation(r retPoint, st0 *State, ri int) {
 	}
 	var conj []string
 	for _, hn := range sortedKeys(r.st.heaps) {
+		if strings.HasPrefix(hn, "G_") {
+			continue // ghost heaps (map sizes, callback sets) are outside the frame
+		}
 		end := r.st.heaps[hn]
 		pre := epochTerm(hn, 0)
 		if end == pre || whole[hn] {
